@@ -703,12 +703,12 @@ func (obj *SparseFloat64Matrix) ITERATOR_FROM(i, j int) *SparseFloat64MatrixIter
   return &r
 }
 func (obj *SparseFloat64Matrix) JOINT_ITERATOR(b ConstMatrix) *SparseFloat64MatrixJointIterator {
-  r := SparseFloat64MatrixJointIterator{obj.ITERATOR(), b.ConstIterator(), -1, -1, Float64{}, nil}
+  r := SparseFloat64MatrixJointIterator{obj.ITERATOR(), b.ConstIterator(), -1, -1, Float64{}, nil, false}
   r.Next()
   return &r
 }
 func (obj *SparseFloat64Matrix) JOINT3_ITERATOR(b, c ConstMatrix) *SparseFloat64MatrixJoint3Iterator {
-  r := SparseFloat64MatrixJoint3Iterator{obj.ITERATOR(), b.ConstIterator(), c.ConstIterator(), -1, -1, Float64{}, nil, nil}
+  r := SparseFloat64MatrixJoint3Iterator{obj.ITERATOR(), b.ConstIterator(), c.ConstIterator(), -1, -1, Float64{}, nil, nil, false}
   r.Next()
   return &r
 }
@@ -738,13 +738,13 @@ type SparseFloat64MatrixJointIterator struct {
   i, j int
   s1 Float64
   s2 ConstScalar
+  ok bool
 }
 func (obj *SparseFloat64MatrixJointIterator) Index() (int, int) {
   return obj.i, obj.j
 }
 func (obj *SparseFloat64MatrixJointIterator) Ok() bool {
-  return !(obj.s1.ptr == nil || obj.s1.GetFloat64() == float64(0)) ||
-         !(obj.s2 == nil || obj.s2.GetFloat64() == float64(0))
+  return obj.ok
 }
 func (obj *SparseFloat64MatrixJointIterator) Next() {
   ok1 := obj.it1.Ok()
@@ -766,6 +766,9 @@ func (obj *SparseFloat64MatrixJointIterator) Next() {
       obj.s2 = obj.it2.GetConst()
     }
   }
+  // the iteration ends when no iterator delivered an element, elements
+  // with value zero must not terminate it
+  obj.ok = obj.s1.ptr != nil || obj.s2 != nil
   if obj.s1.ptr != nil {
     obj.it1.Next()
   }
@@ -800,6 +803,7 @@ func (obj *SparseFloat64MatrixJointIterator) Clone() *SparseFloat64MatrixJointIt
   r.j = obj.j
   r.s1 = obj.s1
   r.s2 = obj.s2
+  r.ok = obj.ok
   return &r
 }
 func (obj *SparseFloat64MatrixJointIterator) CloneJointIterator() MatrixJointIterator {
@@ -818,14 +822,13 @@ type SparseFloat64MatrixJoint3Iterator struct {
   s1 Float64
   s2 ConstScalar
   s3 ConstScalar
+  ok bool
 }
 func (obj *SparseFloat64MatrixJoint3Iterator) Index() (int, int) {
   return obj.i, obj.j
 }
 func (obj *SparseFloat64MatrixJoint3Iterator) Ok() bool {
-  return !(obj.s1.ptr == nil || obj.s1.GetFloat64() == 0.0) ||
-         !(obj.s2 == nil || obj.s2.GetFloat64() == 0.0) ||
-         !(obj.s3 == nil || obj.s3.GetFloat64() == 0.0)
+  return obj.ok
 }
 func (obj *SparseFloat64MatrixJoint3Iterator) Next() {
   ok1 := obj.it1.Ok()
@@ -863,6 +866,9 @@ func (obj *SparseFloat64MatrixJoint3Iterator) Next() {
       obj.s3 = obj.it3.GetConst()
     }
   }
+  // the iteration ends when no iterator delivered an element, elements
+  // with value zero must not terminate it
+  obj.ok = obj.s1.ptr != nil || obj.s2 != nil || obj.s3 != nil
   if obj.s1.ptr != nil {
     obj.it1.Next()
   }
